@@ -219,8 +219,6 @@ def time_atom(cond):
     """canonicalise a path condition on a time comparison to (Lin expr, rel) meaning
     `expr rel 0` with rel in {'<', '<='}; returns None if cond is not a comparison"""
     term, op, val, _site = cond
-    if term[0] != 't' or term[1] not in CMP:
-        return None
     truth = None
     if op == '==' and val in (0, 1):
         truth = bool(val)
@@ -229,6 +227,11 @@ def time_atom(cond):
     elif op == '!=' and set(val) == {1}:
         truth = False
     if truth is None:
+        return None
+    while term[0] == 't' and term[1] == 'Not' and len(term[2]) == 1:      # !(a < b) taken  ==  a < b not taken
+        term = term[2][0]
+        truth = not truth
+    if term[0] != 't' or term[1] not in CMP:
         return None
     a, b = lin_time(term[2][0]), lin_time(term[2][1])
     if a is None or b is None:
